@@ -5,7 +5,7 @@ META = {
     "technique": "TLC model checking of NsqdAbs/NsqdAbsMC and NsqdCore; every TLC-enumerated interleaving of operation pairs "
                  "forced on the real daemon through yield points (gated replay) and compared with the model's prediction; traces of a real in-process nsqd (verif hooks + client-side "
                  "observations) from the seeded 'churn' and 'flow' drivers validated against NsqdAbs by TLC; black-box "
-                 "ledger on client-visible frames and /stats",
+                 "ledger on client-visible frames and /stats; NsqdTopic: channel / topic deletion against publish, channel creation and the pump's copy steps, forced on the real daemon",
     "design_ref": "5/C08",
 }
 
@@ -16,6 +16,9 @@ def run(ctx):
     import pairs
     # binding A': every interleaving (TLC, NsqdCore) of two operations' critical sections forced on the real daemon
     pairs.run_pairs(ctx, "C08", sample=None if not ctx.quick else 220)
+    import tpairs
+    # topic level (NsqdTopic): channel and topic deletion against publish, channel creation, pause and the pump's copy steps
+    tpairs.run_tpairs(ctx, "C08", only=lambda t: {"DELC", "TDELETE"} & set(t))
     # what is left behind: disk files, re-creation, ephemeral objects, concurrent deletions all answered
     import json, os
     from vlib import Inconclusive
